@@ -21,6 +21,10 @@ def variants_for(msg, asn4):
     codes = codes_of(msg)
     if codes:
         out.append(('ext-len', asn4, False, {'ext_len': set(codes)}, msg))
+        if any(upd.ATTR_FLAGS.get(c, 0) & 0xC0 == 0xC0 for c in codes):
+            # an optional transitive attribute that crossed a speaker which did not know it carries the Partial bit
+            out.append(('partial-bit', asn4, False, {'partial': set(codes)}, msg))
+            out.append(('partial-bit+ext-len', asn4, False, {'partial': set(codes), 'ext_len': set(codes)}, msg))
         if len(codes) > 1:
             out.append(('order-reversed', asn4, False, {'order': sorted(codes, reverse=True)}, msg))
             rot = sorted(codes)
